@@ -112,7 +112,15 @@ func caseHash(lines []string, seed int64) uint64 {
 		h.Write([]byte(l))
 		h.Write([]byte{0})
 	}
-	return h.Sum64()
+	// FNV's low bits only depend on the low bits of the input bytes: without a final mix, `hash % 16`
+	// dropped whole classes of cases (all format --all transitions of one tree, for instance)
+	x := h.Sum64()
+	x ^= x >> 33
+	x *= 0xff51afd7ed558ccd
+	x ^= x >> 33
+	x *= 0xc4ceb9fe1a85ec53
+	x ^= x >> 33
+	return x
 }
 
 // onCase is the TLC output callback.
